@@ -230,6 +230,9 @@ func TestCheck(t *testing.T) {
 	rep.Require("stream_runs_in_which_one_input_value_is_assembled", int64(cfg.Pick(100, 2000)))
 	rep.Require("hostile/nil-embedded-pointer-on-source-path", int64(cfg.Pick(5, 100)))
 	rep.Require("hostile/nil-interface-value-for-whole-input", int64(cfg.Pick(5, 100)))
+	rep.Require("sets_run_with/"+fArrayInput, int64(cfg.Pick(20, 400)))
+	rep.Require("sets_run_with/"+fArrayInput+"/END", int64(cfg.Pick(5, 100)))
+	rep.Require("mappings_run/value-of-array-type/to-field-or-map-element", int64(cfg.Pick(20, 400)))
 
 	ctx := context.Background()
 	n := int64(cfg.Pick(500, 50000))
@@ -409,6 +412,24 @@ func runCase(ctx context.Context, rep *mon.Reporter, rng *mon.Rand, c *Case, idx
 	}
 	if c.Struct != "" {
 		rep.Count("structure/"+c.Struct, 1)
+	}
+	if arrayType(c.Tgt) {
+		rep.Count("sets_run_with/"+fArrayInput, 1)
+		if c.SuccEnd {
+			rep.Count("sets_run_with/"+fArrayInput+"/END", 1)
+		}
+	}
+	for _, m := range c.Maps {
+		if m.lt.Kind() == reflect.Array || (m.lt.Kind() == reflect.Ptr && m.lt.Elem().Kind() == reflect.Array) {
+			where := "whole-input"
+			if len(m.To) > 0 {
+				where = "field-or-map-element"
+				if strings.Contains(m.tgt.Shape, "A") {
+					where = "any-hole"
+				}
+			}
+			rep.Count("mappings_run/value-of-array-type/to-"+where, 1)
+		}
 	}
 
 	// ---- run: the first accepted order and one more
@@ -604,6 +625,17 @@ func (c *Case) attribute(mode string, e *expectation, o *outcome) string {
 		refClass = e.Class
 	}
 	failed := o != nil && o.Kind != "value"
+	if failed && arrayType(c.Tgt) {
+		// the whole input is an array (or a pointer to one): named by that when the empty input value cannot even be
+		// made, or when the run fails without any finding of the reference
+		st := ""
+		if o.Kind == "panic" {
+			st = panicFrame(o.Panic)
+		}
+		if strings.Contains(st, "newInstanceByType") || (refClass == "" && c.Hazard == "" && (st == "" || strings.Contains(st, "convertTo"))) {
+			return fArrayInput
+		}
+	}
 	if sk := c.skipClass(); sk == "all-mapped-predecessors-skipped-by-a-branch" && failed {
 		// a branch skipped every data predecessor of the successor: no source value is even looked at
 		return sk
@@ -687,6 +719,9 @@ func (c *Case) attribute(mode string, e *expectation, o *outcome) string {
 }
 
 const fTgtEmbPtr = "target-field-promoted-through-embedded-pointer"
+
+// fArrayInput: the successor's declared input type is an array or a pointer to an array
+const fArrayInput = "successor-input-of-array-type"
 
 // tgtThroughEmbPtr: a declared target names a field that is promoted through an embedded pointer.
 func (c *Case) tgtThroughEmbPtr() bool {
@@ -874,6 +909,15 @@ func hashValue(v reflect.Value, depth int) uint64 {
 		}
 		e := v.Elem()
 		return mix64(mix64(12, mon.HashStr(e.Type().String())), hashValue(e, depth+1))
+	case reflect.Array, reflect.Slice:
+		if v.Kind() == reflect.Slice && v.IsNil() {
+			return 15
+		}
+		h := mix64(16, uint64(v.Len()))
+		for i := 0; i < v.Len(); i++ {
+			h = mix64(h, hashValue(v.Index(i), depth+1))
+		}
+		return h
 	default:
 		return mix64(13, mon.HashStr(fmt.Sprintf("%v", v.Interface())))
 	}
